@@ -224,6 +224,10 @@ class HttpWebServerPlugin(HttpProtocolHandlerPlugin):
                 )
             self.pipeline_request.parse(raw)
             if self.pipeline_request.is_complete:
+                # Bytes past the end of this request, received in
+                # the same segment, are the beginning of the next one
+                rest = self.pipeline_request.buffer
+                self.pipeline_request.buffer = None
                 # Route every request of the connection by its own path,
                 # fall back to the route of the first request
                 self._route_for(
@@ -234,6 +238,8 @@ class HttpWebServerPlugin(HttpProtocolHandlerPlugin):
                         'Pipelined request is not keep-alive, will tear down request...',
                     )
                 self.pipeline_request = None
+                if rest is not None and len(rest) > 0:
+                    self.on_client_data(rest)
 
     def on_response_chunk(self, chunk: List[memoryview]) -> List[memoryview]:
         self._response_size += sum(len(c) for c in chunk)
